@@ -164,8 +164,15 @@ impl EventLoop {
                 self.keepalive_timeout = Some(Box::pin(time::sleep(self.options.keep_alive)));
             }
 
-            self.state
-                .handle_incoming_packet(Incoming::ConnAck(connack))?;
+            // a CONNACK the state machine refuses (e.g. receive maximum 0) ends this connection:
+            // carrying on over it would use the limits of the previous one
+            if let Err(e) = self
+                .state
+                .handle_incoming_packet(Incoming::ConnAck(connack))
+            {
+                self.clean();
+                return Err(e.into());
+            }
         }
 
         match self.select().await {
